@@ -49,10 +49,12 @@ def make_schema(cols):
     with warnings.catch_warnings():
         warnings.simplefilter("ignore")
         for name, ty, nullable in cols:
+            # every column also carries aliases: a record key equal to an alias is NOT the column's name
+            kw = {"aliases": ["alias_" + name, name.upper() + "_aka"]}
             if ty is None:
-                out.append(FlatColumn(name=name, nullable=nullable))
+                out.append(FlatColumn(name=name, nullable=nullable, **kw))
             else:
-                out.append(FlatColumn(name=name, type=OrsoTypes[ty], nullable=nullable))
+                out.append(FlatColumn(name=name, type=OrsoTypes[ty], nullable=nullable, **kw))
     return RelationSchema(name="t", columns=out)
 
 
@@ -279,8 +281,9 @@ def gen_record_tags(rng, cols, p_valid=0.5):
             tags[n] = rng.choice(RIGHT[ty]) if ty else rng.choice(list(POOL)[:-1])
         else:
             tags[n] = rng.choice(list(POOL)[:-1])
-    if not valid and rng.random() < 0.25:
-        tags[rng.choice(["zz", "extra", "C0"])] = rng.choice(list(POOL)[:-1])
+    if not valid and rng.random() < 0.3:
+        extra = rng.choice(["zz", "extra", "C0"] + (["alias_" + cols[0][0], cols[-1][0].upper() + "_aka"] if cols else []))
+        tags[extra] = rng.choice(list(POOL)[:-1])
     items = list(tags.items())
     rng.shuffle(items)
     return dict(items)
@@ -322,7 +325,7 @@ def decision_table():
         rec["n"] = "none" if null else "str"
         rec["w"] = "int" if wrong else "float"
         if excess:
-            rec["zz"] = "int"
+            rec["zz" if (missing + null) % 2 == 0 else "alias_m"] = "int"
         for order in (list(rec.items()), list(reversed(list(rec.items())))):
             yield {"kind": "validate", "cols": cols, "record": dict(order)}
 
